@@ -313,6 +313,13 @@ func c02Case(w *core.Worker, i int) {
 		hdr = append(hdr, fmt.Sprintf("c%d", c+1))
 		pos = append(pos, fmt.Sprint(22*(c+1)))
 	}
+	if ncols >= 3 && r.P(25) {
+		// two columns whose names differ only in letter case (column names are compared without regard to case when they
+		// are referenced, but they are written as they are)
+		pr := [][2]string{{"Name", "name"}, {"id", "ID"}, {"qty", "Qty"}, {"KEY", "key"}}[r.Intn(4)]
+		hdr[1], hdr[2] = pr[0], pr[1]
+		w.Count("tables_with_column_names_differing_in_case_only", 1)
+	}
 	d.Positions = "[" + strings.Join(pos, ", ") + "]"
 	probe := c02Hostile[r.Intn(len(c02Hostile))]
 	var rows [][]*string
